@@ -4,8 +4,9 @@ import itertools
 from bounded.replay_models import handler
 
 
-def run_script(script, tol, min_ev, max_ev):
-    """script: list of (error, npts) per evaluation; the last entry repeats forever.  Returns list of violations."""
+def run_script(script, tol, min_ev, max_ev, tolerance_prev=None):
+    """script: list of (error, npts) per evaluation; the last entry repeats forever.  Returns list of violations.
+    tolerance_prev: what an earlier call left in the object's `tolerance` attribute (the limits of a call are its arguments)."""
     import numpy as np
     from sparseSpACE.spatiallyAdaptiveBase import SpatiallyAdaptivBase
     from sparseSpACE.Utils import LogUtility
@@ -33,6 +34,7 @@ def run_script(script, tol, min_ev, max_ev):
             self.refinements = 0
             self.operation, self.refinement = Op(), Ref()
             self.scheme, self.lmax = [], [1]
+            self.tolerance = (tol + 1.0) if tolerance_prev is None else tolerance_prev
             self.E = 0
             self.R = 0
             self.events = []
@@ -97,9 +99,10 @@ def c13_driver(inp, obligation):
         for script in itertools.product(steps, repeat=L):
             script = list(script) + [(tol - 1.0, max(pts) + 1 + (mx or 0))]   # finally a step that must stop
             tried += 1
-            bad = run_script(script, tol, mn, mx)
-            if bad:
-                return True, {"script(error,npts)": script, "tol": tol, "min_evaluations": mn, "max_evaluations": mx, "violations": bad}
+            for prev in ([inp["tolerance_prev"]] if inp.get("tolerance_prev") is not None else []) + [tol + 1.0, tol - 1.0]:
+                bad = run_script(script, tol, mn, mx, float(prev))
+                if bad:
+                    return True, {"script(error,npts)": script, "tol": tol, "min_evaluations": mn, "max_evaluations": mx, "tolerance of the previous call": float(prev), "violations": bad}
     return False, {"scripts_tried": tried}
 
 
